@@ -11,7 +11,7 @@ import (
 )
 
 func init() {
-	register("C05", "Structural clauses behind truthful change notifications, decided on all paths of the disk writer: a notification is only reachable after the checked mutation it reports (remove; metadata and rename; data callback completion or digest finalisation); with a notify callback set, no success return is reachable after a mutating call without a notification or the hand-off to the asynchronous writer (the directory-over-directory shortcut violates this: open known finding F6); the digest hashes the caller's header of the stat as sent and exactly the bytes that also go to the file (one multi-writer, fields private to constructor and Close, digest taken before close); delete suppression below a removed directory uses a separator-terminated prefix. The file writer behind the digest hands every chunk through to the file (no success return of lazyFileWriter.Write without a write of the whole slice). What the writer's Close produces (the digest, the close error) is stored before the channel that signals completion is closed (shared with C08). A special file is created with the type bits of the stat the notification carries (shared with C01). Does not decide 'exactly once' nor that applying the events to a model reproduces the tree.", runC05)
+	register("C05", "Structural clauses behind truthful change notifications, decided on all paths of the disk writer: a notification is only reachable after the checked mutation it reports (remove; metadata and rename; data callback completion or digest finalisation); with a notify callback set, no success return is reachable after a mutating call without a notification or the hand-off to the asynchronous writer (the directory-over-directory shortcut violates this: open known finding F6); the digest hashes the caller's header of the stat as sent and exactly the bytes that also go to the file (one multi-writer, fields private to constructor and Close, digest taken before close); delete suppression below a removed directory uses a separator-terminated prefix. The file writer behind the digest hands every chunk through to the file (no success return of lazyFileWriter.Write without a write of the whole slice). What the writer's Close produces (the digest, the close error) is stored before the channel that signals completion is closed (shared with C08). A special file is created with the type bits of the stat the notification carries (shared with C01). The file ids both ends key their tables by are the zero-based positions in the STAT sequence (counter from 0, one increment per announced entry, registration with the pre-increment value; shared with C06/C07): two ends that agree with each other on any other numbering hand a conforming peer a neighbouring file's bytes. Does not decide 'exactly once' nor that applying the events to a model reproduces the tree.", runC05)
 }
 
 func runC05(c *Ctx) {
@@ -31,6 +31,9 @@ func runC05(c *Ctx) {
 	// what is created is what the notification describes: a special file is
 	// made with the type bits of the stat as sent (shared with C01)
 	r01_4(c, "R05.8")
+	// the bytes hashed under an entry's header are that entry's: ids are
+	// zero-based STAT positions on both ends (shared with C06/C07)
+	idNumbering(c, "R05.9", "R05.10", "R05.11")
 }
 
 // R05.5: the bytes that are hashed are the bytes that are stored.
